@@ -69,5 +69,10 @@ TNext == /\ l <= Len(T.ev) /\ l' = l + 1 /\ UNCHANGED <<tid, hist, pos0>>
          /\ (New \/ Del \/ Set \/ Reset \/ Add \/ Rem \/ Query)
 TSpec == TInit /\ [][TNext]_<<pos, cellmap, cellOf, hist, pos0, tid, l, present>>
 
-Done == (l = Len(T.ev) + 1) => PrintT(<<"END", T.id, l>>)
+\* at the end of the life of the Cells object (its last operation): every atom of the structure that is filed is filed
+\* in the cell of its current position (Consistent of Cells.tla, on the recorded history)
+Stale == {a \in present : cellOf[a] # None /\ cellOf[a] # C!Key(pos[a])}
+Done == (l = Len(T.ev) + 1) =>
+          /\ (Stale = {} \/ PrintT(<<"S", T.id, l, SetToSeq(Stale)>>))
+          /\ PrintT(<<"END", T.id, l>>)
 ================================================================================
